@@ -166,7 +166,7 @@ theorem bindL_lookup : ∀ (ds : List X.Decl) (n : String) (b : LBind), (bindL d
 
 def StmtSpec (G : GCtx) (fuel : Nat) : Prop :=
   ∀ pi ∈ G.procs, ∀ sp dep hi, G.lo ≤ sp → sp + G.S pi + pi.po + pi.p.formals.length ≤ G.spv + 1 → G.spv ≤ sp + dep * G.smax →
-    ∀ s σ, okS4 G.pnames s = true →
+    ∀ s σ, okS5 G.pk G.pnames G.xc.impure s = true →
       ExecS (KOf G pi sp dep hi) (G.iEpi pi) (optStmt (annotS (fun _ => none) s)) σ (X.exec fuel G.xc s σ)
 
 /-- What an activation's memory says about the global state. -/
